@@ -6,8 +6,12 @@
 #include <stddef.h>
 #include <stdint.h>
 #define RET __CPROVER_return_value
+#ifndef NMAXB
 #define NMAXB 13
+#endif
+#ifndef NMAXV
 #define NMAXV 22
+#endif
 extern uint32_t g_now;
 #define MINW(n, W) ((n) < (W) ? (n) : (W))
 #define LT11(ts, m, v) (((0 < (m)) && (ts)[0] < (v) ? 1 : 0) + ((1 < (m)) && (ts)[1] < (v) ? 1 : 0) + ((2 < (m)) && (ts)[2] < (v) ? 1 : 0) + ((3 < (m)) && (ts)[3] < (v) ? 1 : 0) + ((4 < (m)) && (ts)[4] < (v) ? 1 : 0) + ((5 < (m)) && (ts)[5] < (v) ? 1 : 0) + ((6 < (m)) && (ts)[6] < (v) ? 1 : 0) + ((7 < (m)) && (ts)[7] < (v) ? 1 : 0) + ((8 < (m)) && (ts)[8] < (v) ? 1 : 0) + ((9 < (m)) && (ts)[9] < (v) ? 1 : 0) + ((10 < (m)) && (ts)[10] < (v) ? 1 : 0))
